@@ -20,13 +20,17 @@ def main():
             res = mod.run_shard(arg)
         elif mode == "replay":
             res = {"replays": []}
+            def one(v):
+                if getattr(mod, "NEEDS_SPIL", True):
+                    from mc import env
+                    env.reset()          # every replay starts from cold caches (a violation may have polluted them)
+                return mod.replay_case(v["kind"], v["case"])
             for v in arg["violations"]:
                 runs = []
                 for _ in range(2):
-                    got = mod.replay_case(v["kind"], v["case"])
+                    got = one(v)
                     runs.append(sorted(set(x["signature"] for x in got)))
-                res["replays"].append({"signature": v["signature"], "runs": runs,
-                                       "details": mod.replay_case(v["kind"], v["case"])})
+                res["replays"].append({"signature": v["signature"], "runs": runs, "details": one(v)})
         else:
             raise SystemExit("bad mode")
         res["ok"] = True
